@@ -406,7 +406,7 @@ theorem done_res (sk : Skeleton) (hf : Facts sk) (ha : Async sk) {s : State} (e 
                nextPub := updE s.nextPub e (s.nextPub e + 1),
                pubs := upd2 s.pubs e (s.nextPub e) (.pending f),
                resLoopBusy := updE s.resLoopBusy e none } := by
-    simp [step, hl.res_free e, hi, ha.publishGo]
+    simp [step, hl.res_free e, hi, ha.publishGo, ha.resOnlyRead]
   refine done_cons sk hs ⟨?_, ?_, ?_⟩ (by intro x h hh; simp [Act.handler?] at hh)
     (done_pub sk hf e t (s.nextPub e) ⟨Reach.step _ w.reach hs, w.pc, w.res⟩ (by simp [Pub.holds, hk]))
   · intro x i _ _; rfl
@@ -467,7 +467,7 @@ theorem done_resolving (sk : Skeleton) (hf : Facts sk) (ha : Async sk) {s : Stat
       { s with handlers := upd2 s.handlers (peer e) h { s.handlers (peer e) h with pc := .running },
                invocations := s.invocations ++ mkInv sk (peer e) h (s.handlers (peer e) h).req,
                reqLoopBusy := updE s.reqLoopBusy (peer e) (release (s.reqLoopBusy (peer e)) h) } := by
-    simp [step, hh, ha.handlerGo]
+    simp [step, hh, ha.handlerGo, ha.reqOnlyRead]
   refine done_cons sk hs ⟨?_, ?_, ?_⟩ ?_
     (done_running sk hf ha e t h v err ⟨Reach.step _ w.reach hs, w.pc, w.res⟩ (by simp) (by simp [hq]))
   · intro x i _ _; rfl
@@ -492,7 +492,7 @@ theorem done_req (sk : Skeleton) (hf : Facts sk) (ha : Async sk) {s : State} (e 
                served := upd2 s.served (peer e) f.call true,
                servedBy := upd2 s.servedBy (peer e) f.call (s.nextHandler (peer e)),
                reqLoopBusy := updE s.reqLoopBusy (peer e) none } := by
-    simp [step, hl.req_free (peer e), hi, ha.resolveGo, ha.handlerGo]
+    simp [step, hl.req_free (peer e), hi, ha.resolveGo, ha.handlerGo, ha.reqOnlyRead]
   have hnew : ∀ x h', (s.handlers x h').pc ≠ .absent → ¬(x = peer e ∧ h' = s.nextHandler (peer e)) := by
     rintro x h' hne ⟨rfl, rfl⟩
     exact absurd (hinv.r.h_lt _ _ hne) (Nat.lt_irrefl _)
